@@ -89,6 +89,16 @@ func (s *HistSpec) RunHistory(hist []Action, trace bool) HistResult {
 		h := NewHarness(s.Cfg)
 		all := append(append([]Action{}, s.Prefix...), hist...)
 		for i, a := range all {
+			switch a.Kind {
+			case "connect", "connectraw", "advance", "lpub", "lsub", "lunsub":
+			default:
+				// the model may have closed this connection on its own (keep-alive,
+				// request answered by closing): the rest of the history is moot
+				if mc := h.M.conns[a.Client]; mc == nil || !mc.open {
+					out.Key = "DEAD-END"
+					return
+				}
+			}
 			mm := h.Step(a)
 			out.Steps++
 			if trace {
